@@ -1714,6 +1714,11 @@ func decoderRules(c *Ctx, prop string) {
 			}
 			chain := role == "chain"
 			for _, s := range stores {
+				if s.kind == skOther && prop == "C08" {
+					// the field adopts a slice built elsewhere: neither the cap nor the accumulator sees its content
+					r.Fail("C08/ACCUM-CAP", fmt.Sprintf("%s %s assigns %s", short, fnShort(s.fn), core.FieldName(f)), p.Pos(s.st.Pos()), "a persistent slice field is assigned a slice that was built elsewhere (not nil, not an append to the field, not a fresh allocation): its content enters the buffer without passing the size cap and without being counted by the accumulator, so the caps that follow are measured against too small a total")
+					continue
+				}
 				if s.kind != skGrow && s.kind != skTruncGrow {
 					continue
 				}
